@@ -331,7 +331,7 @@ def run_property(tier, seed_value):
         genv = dict(ENV, GIT_AUTHOR_NAME="t", GIT_AUTHOR_EMAIL="t@e", GIT_COMMITTER_NAME="t", GIT_COMMITTER_EMAIL="t@e")
         def git(*a, date=None):
             e = dict(genv)
-            if date: e["GIT_AUTHOR_DATE"] = e["GIT_COMMITTER_DATE"] = f"{date} +0000"
+            if date: e["GIT_AUTHOR_DATE"], e["GIT_COMMITTER_DATE"] = f"{max(1, date - 40000000)} +0530", f"{date} +0000"
             _real_run(["git", *a], cwd=repo, env=e, check=True, capture_output=True, stdin=subprocess.DEVNULL)
         git("init", "-q", "-b", "main", "."); git("commit", "-q", "--allow-empty", "-m", "c0", date=1600000000); git("tag", "v0.1.0")
         n = [1]
@@ -426,7 +426,7 @@ def setup_fixtures():
     TMP = tempfile.mkdtemp(prefix="c18-", dir=os.path.join(ROOT, ".cache"))
     GIT_REPO = os.path.join(TMP, "repo")
     os.makedirs(GIT_REPO)
-    genv = dict(ENV, GIT_AUTHOR_NAME="t", GIT_AUTHOR_EMAIL="t@e", GIT_COMMITTER_NAME="t", GIT_COMMITTER_EMAIL="t@e", GIT_AUTHOR_DATE="1600000000 +0000", GIT_COMMITTER_DATE="1600000000 +0000")
+    genv = dict(ENV, GIT_AUTHOR_NAME="t", GIT_AUTHOR_EMAIL="t@e", GIT_COMMITTER_NAME="t", GIT_COMMITTER_EMAIL="t@e", GIT_AUTHOR_DATE="1500000000 +0530", GIT_COMMITTER_DATE="1600000000 +0000")
     for cmd in (["git", "init", "-q", "-b", "main", "."], ["git", "commit", "-q", "--allow-empty", "-m", "c0"], ["git", "tag", "v1.4.0"], ["git", "commit", "-q", "--allow-empty", "-m", "c1"]):
         _real_run(cmd, cwd=GIT_REPO, env=genv, check=True, capture_output=True)
     # a second repository reached through a symlink: <TMP>/links/out -> <TMP>/releases/app/sub, so
